@@ -344,6 +344,17 @@ def run_shard(shard, acc):
             ops = [OPS[data.draw(st.integers(0, len(OPS) - 1))] for _ in range(data.draw(st.integers(3, 14)))]
             case = dict(base, kind='ops', ops=ops, with_argument=data.draw(st.integers(0, 4)) > 0,
                         op_max_steps=data.draw(st.sampled_from([None, None, 1, 3, 7, 0])))
+            if case['op_max_steps'] in (None, 0) and 'build' in ops:
+                # bounded generation: an unlimited build() of an explosive proof (P3, nested biconditionals ...) would
+                # run for hours; only arguments whose whole proof is short are driven without a step limit
+                try:
+                    probe = prover.build(logic, prem, con, max_steps=MAX_N + 1, **build_kw(base))
+                except Exception:
+                    acc.count('build-raised (see C09)')
+                    return
+                if probe.premature or len(probe.history) > MAX_N:
+                    acc.inconclusive += 1
+                    return
             try:
                 res, info = check_case(case)
             except Exception as e:
